@@ -1,6 +1,9 @@
 #!/bin/sh
-# usage: seedsweep.sh "<props>" "<seeds>"  -- run checks under several seeds, print one line each
+# usage: seedsweep.sh "<props>" "<seeds>"  -- run checks under several seeds, print one status line each
 for s in $2; do for p in $1; do
-  r=$(VERIF_SEED=$s timeout 1500 ./check $p 2>&1 | grep -E "^(VIOLATION|OK|ERROR|KNOWN|  )" | head -4 | cut -c1-400 | tr '\n' '|')
-  echo "seed=$s $p: $r"
+  out=$(VERIF_SEED=$s timeout 2400 ./check $p 2>&1 | tr -d '\000')
+  r=$(printf '%s\n' "$out" | grep -aE "^(VIOLATION|OK|ERROR)" | head -2 | cut -c1-300 | tr '\n' '|')
+  k=$(printf '%s\n' "$out" | grep -ac "^KNOWN-FINDING")
+  d=$(printf '%s\n' "$out" | grep -aE "^  " | head -2 | cut -c1-300 | tr '\n' '|')
+  echo "seed=$s $p: $r known=$k $d"
 done; done
